@@ -35,6 +35,10 @@ DESC = {
               "two threads sharing the connection; one call becomes outstanding between the other's check and its write lock (unwrap panic, poisoned lock)"),
     "C07-2": ("C07", "recv(): the typed decode of the parameters now happens before the reader/writer are handed back",
               "a final reply without error whose parameters do not decode, followed by another call on the same connection (ConnectionBusy forever)"),
+    "C08-1": ("C08", "generator: the dispatch arm is chosen by `bare_call = no input && no reply` instead of `no input`, so a method without parameters but with a reply gets the parsing arm",
+              "`Start` sent without a `parameters` member (or with null): answered with InvalidParameter(parameters) instead of being dispatched"),
+    "C08-2": ("C08", "generator: top-level `[string]T` members of Args/Reply structs get `#[serde(default, skip_serializing_if = ..is_empty)]`",
+              "an empty or omitted dictionary: a request without `map` is no longer InvalidParameter, an empty map is dropped from the wire"),
     "C12-1": ("C12", "try_from's error closure cuts the line out with the byte offset and reports `offset - start + 1` (a byte distance) as the column",
               "a non-ASCII character (e.g. U+3000 / U+00A0 whitespace) in front of the error position on the same line: the column runs past the line"),
     "C12-2": ("C12", "`value.split('\\n').nth(line-1)` replaced by `value.lines().nth(line-1)` (drops the empty piece after a trailing newline)",
